@@ -46,7 +46,9 @@ def merge_expressions(exps: BoolExpList) -> BoolExpList:
         e = e.xreplace(emap)
         e = custom_simplify_logic(e)
 
-        if s.name[0:4] != "_ret":
+        # the return bits are named _ret or _ret.N; a user variable such as
+        # _retval is an intermediate like any other
+        if s.name != "_ret" and not s.name.startswith("_ret."):
             emap[s] = e
         else:
             n_exps.append((s, e))
